@@ -167,9 +167,11 @@ class World:
         listen = cfg.get("listen", True)
         self.transport = cfg.get("transport") or DEFAULT_TRANSPORT
         sctp = self.transport == "sctp"
-        self.node = h.make_node(NODE_HOST, REALM, ip_addresses=("10.0.0.1",) if listen else None,
-                                tcp_port=3868 if listen and not sctp else None,
-                                sctp_port=3868 if listen and sctp else None, **cfg.get("node", {}))
+        # ips: the addresses the node listens on; both: listen over TCP and SCTP at once
+        both = bool(cfg.get("both"))
+        self.node = h.make_node(NODE_HOST, REALM, ip_addresses=tuple(cfg.get("ips", ("10.0.0.1",))) if listen else None,
+                                tcp_port=3868 if listen and (both or not sctp) else None,
+                                sctp_port=3868 if listen and (both or sctp) else None, **cfg.get("node", {}))
         self.peers = {}
         for i, pc in enumerate(cfg.get("peers", [])):
             ip = pc.get("ip", f"10.1.0.{i + 1}")
